@@ -9,6 +9,7 @@ import (
 	"io"
 	"math/rand"
 	"strconv"
+	"strings"
 	"sync"
 	"sync/atomic"
 	"time"
@@ -35,6 +36,10 @@ import (
 //	cancel=-1  the run ends by itself: the result is judged at the moment Engine.Run returns nil (no Wait, no sleep)
 //	cancel=c   the context given to Engine.Run is cancelled during shoot number c of pool 0 (SIGINT/SIGTERM do that);
 //	           the result is judged after Engine.Wait(); only the Report calls completed before the cancel must be there
+//	fail=c     (round 3) the gun of pool 0 panics in the middle of its shoot number c: that instance's Run fails, the pool
+//	           fails, Engine.Run returns the error and cancels the OTHER pools; the caller then does what cli.go does:
+//	           cancel, Engine.Wait(). Every Report completed before the panic — in every pool — must be in the output,
+//	           every aggregator must have returned when Wait returns
 
 // a run of the engine over these toy guns takes milliseconds (a second on a badly loaded machine)
 const engineHang = 25 * time.Second
@@ -64,10 +69,11 @@ type engPool struct {
 	per      int
 	slow     time.Duration
 	cancelAt int
+	failAt   int
 	cancel   context.CancelFunc
 
 	real     core.Aggregator
-	file     *trackFile
+	file     func() *trackFile
 	runErr   error
 	runDone  atomic.Bool
 	guns     atomic.Int64
@@ -111,6 +117,10 @@ func (g *engGun) Shoot(core.Ammo) {
 			p.pre.Store(p.seq.Load())
 			p.cancel()
 		}
+		if p.idx == 0 && shot == p.failAt && j == p.per/2 {
+			p.pre.Store(p.seq.Load())
+			panic("c06: the gun broke")
+		}
 		ki := g.k
 		g.k++
 		var s core.Sample
@@ -145,7 +155,7 @@ type engSnap struct {
 func (p *engPool) snapshot(pre int64) engSnap {
 	var sn engSnap
 	sn.aggReturned = p.runDone.Load()
-	data, closedOK := p.file.snapshot()
+	data, closedOK := p.file().snapshot()
 	sn.closed = b2i(closedOK)
 	if sn.aggReturned {
 		sn.err, sn.dropped = runErrString(p.runErr)
@@ -248,8 +258,14 @@ func runEngine(kv map[string]string) string {
 	pools, inst, ammo, per, q := atoi(kv["pools"]), atoi(kv["inst"]), atoi(kv["ammo"]), atoi(kv["per"]), atoi(kv["q"])
 	slow := time.Duration(atoi(kv["slow"])) * time.Microsecond
 	cancelAt := atoi(kv["cancel"])
+	failAt := 0
+	if kv["fail"] != "" {
+		failAt = atoi(kv["fail"])
+	}
 	seed := int64(atoi(kv["seed"]))
-	if pools < 1 || inst < 1 || per < 1 || q < 1 {
+	// inst=0 (round 3): a startup schedule without a single token — no instance is ever started, the start result alone
+	// has to end the run
+	if pools < 1 || inst < 0 || per < 1 || q < 1 {
 		return "err=bad-input"
 	}
 	discMs := atoi(kv["disc"])
@@ -260,7 +276,7 @@ func runEngine(kv map[string]string) string {
 	var ps []*engPool
 	conf := engine.Config{}
 	for i := 0; i < pools; i++ {
-		p := &engPool{idx: i, agg: agg, per: per, slow: slow, cancelAt: cancelAt, cancel: cancel, seq: &seq, pre: &pre,
+		p := &engPool{idx: i, agg: agg, per: per, slow: slow, cancelAt: cancelAt, failAt: failAt, cancel: cancel, seq: &seq, pre: &pre,
 			seqOf: map[[2]int]int64{}}
 		switch agg {
 		case "phout":
@@ -273,12 +289,13 @@ func runEngine(kv map[string]string) string {
 			if err != nil {
 				return "err=new:" + drv_clean(err.Error())
 			}
-			p.file = fs.file
+			p.file = func() *trackFile { return fs.file }
 			p.real = netsample.WrapAggregator(a)
 		case "jsonlines":
-			p.file = &trackFile{}
+			tf := &trackFile{}
+			p.file = func() *trackFile { return tf }
 			c := aggregator.DefaultJSONLinesAggregatorConfig()
-			c.Sink = &memSink{p.file}
+			c.Sink = &memSink{tf}
 			c.ReporterConfig.SampleQueueSize = q
 			p.real = aggregator.NewJSONLinesAggregator(c)
 		default:
@@ -341,7 +358,11 @@ func runEngine(kv map[string]string) string {
 			// the aggregator ended with its drop count; the engine passes that on as the run's error or not,
 			// depending on which case of onErrAwaited's select wins
 			runS = "dropped"
+		case failAt > 0 && strings.Contains(runErr.Error(), "the gun broke"):
+			runS = "failed" // the pool whose gun panicked failed, as it must
 		}
+		// what cli.go does with a failed run: gracefulShutdown(), then Wait
+		cancel()
 	}
 	waited := make(chan struct{})
 	go func() { e.Wait(); close(waited) }()
